@@ -107,6 +107,7 @@ func (v *BufferedFile) Seek(offset int64, whence int) (int64, error) {
 		}
 		v.minOffset = newStart
 		v.maxOffset = newStart + int64(bytesRead)
+		verifRefill(newOffset, newStart, bytesRead)
 	}
 
 	v.currentOffset = newOffset
